@@ -190,20 +190,32 @@ theorem run_append : ∀ (a b : List Bytes) (r : Option Rec),
 
 /-! ### step -/
 
-theorem step_first (r0 : Option Rec) (seq : Nat) (hs : seq < 8) (total : Nat) (payload : Bytes)
-    (h0 : ∀ x, r0 = some x → x.seq ≠ seq) :
+theorem startsNew_of_seq_ne (r0 : Option Rec) (seq : Nat) (rest : Bytes)
+    (h0 : ∀ x, r0 = some x → x.seq ≠ seq) : startsNew r0 seq rest = true := by
+  cases r0 with
+  | none => simp [startsNew]
+  | some x =>
+    cases rest with
+    | nil => simp [startsNew]
+    | cons t p =>
+      have hx : ¬ x.seq = seq := h0 x rfl
+      simp [startsNew, hx]
+
+theorem step_first_new (r0 : Option Rec) (seq : Nat) (hs : seq < 8) (total : Nat) (payload : Bytes)
+    (h0 : startsNew r0 seq (total :: payload) = true) :
     step r0 (seq * 32 :: total :: payload) =
       (let r' : Rec := { len := total, seq := seq, stored := payload.length, frames := [(0, payload)] }
        if r'.stored ≥ r'.len then (some r', .complete (combined r')) else (some r', .stored)) := by
   have e1 : seq * 32 / 32 % 8 = seq := by omega
   have e2 : seq * 32 % 32 = 0 := by omega
-  have e3 : seq % 8 = seq := by omega
-  cases r0 with
-  | none =>
-    simp [step, e2, e3]
-  | some x =>
-    have hx : ¬ x.seq = seq := h0 x rfl
-    simp [step, e2, e3, hx]
+  simp only [step, e1, e2, h0, ne_eq, not_true_eq_false, false_and, if_false, and_self, if_true]
+
+theorem step_first (r0 : Option Rec) (seq : Nat) (hs : seq < 8) (total : Nat) (payload : Bytes)
+    (h0 : ∀ x, r0 = some x → x.seq ≠ seq) :
+    step r0 (seq * 32 :: total :: payload) =
+      (let r' : Rec := { len := total, seq := seq, stored := payload.length, frames := [(0, payload)] }
+       if r'.stored ≥ r'.len then (some r', .complete (combined r')) else (some r', .stored)) :=
+  step_first_new r0 seq hs total payload (startsNew_of_seq_ne r0 seq _ h0)
 
 theorem step_next (r : Rec) (i : Nat) (c : Bytes) (hs : r.seq < 8) (hi : 0 < i) (hi32 : i < 32)
     (hlen : r.len ≠ 0) (hlt : ∀ p ∈ r.frames, p.1 < i) :
@@ -215,7 +227,7 @@ theorem step_next (r : Rec) (i : Nat) (c : Bytes) (hs : r.seq < 8) (hi : 0 < i) 
   have hi0 : i ≠ 0 := by omega
   simp only [step, e1, e2, ne_eq, hi0, not_false_eq_true, hlen, and_false, if_false,
     not_true_eq_false, hasFrame_false i r.frames hlt, insertFrame_append i c r.frames hlt,
-    Bool.false_eq_true]
+    Bool.false_eq_true, false_and]
 
 /-! ### feeding the remaining frames -/
 
@@ -290,13 +302,13 @@ theorem run_rest (seq L : Nat) (hs : seq < 8) :
         List.flatten_cons, List.flatten_nil, List.append_nil, List.append_assoc,
         List.take_append_drop, List.cons_append]
 
-theorem run_frames (seq : Nat) (P : Bytes) (hs : seq < 8) (hP : P.length ≤ 223)
-    (r0 : Option Rec) (h0 : ∀ x, r0 = some x → x.seq ≠ seq) :
+theorem run_frames_new (seq : Nat) (P : Bytes) (hs : seq < 8) (hP : P.length ≤ 223)
+    (r0 : Option Rec) (h0 : startsNew r0 seq (P.length :: P.take 6) = true) :
     run r0 (frames seq P) =
       (none, List.replicate ((frames seq P).length - 1) Out.stored ++ [Out.complete P]) := by
   rw [frames_length]
   simp only [frames]
-  have hstep := step_first r0 seq hs P.length (P.take 6) h0
+  have hstep := step_first_new r0 seq hs P.length (P.take 6) h0
   by_cases hle : P.length ≤ 6
   · have htake : P.take 6 = P := List.take_of_length_le hle
     have hdrop : P.drop 6 = [] := List.drop_of_length_le hle
@@ -327,6 +339,12 @@ theorem run_frames (seq : Nat) (P : Bytes) (hs : seq < 8) (hP : P.length ≤ 223
     have hk : 1 + (P.length - 6 + 6) / 7 - 1 = ((P.drop 6).length + 6) / 7 - 1 + 1 := by omega
     rw [hk, List.replicate_succ]
     simp [flat]
+
+theorem run_frames (seq : Nat) (P : Bytes) (hs : seq < 8) (hP : P.length ≤ 223)
+    (r0 : Option Rec) (h0 : ∀ x, r0 = some x → x.seq ≠ seq) :
+    run r0 (frames seq P) =
+      (none, List.replicate ((frames seq P).length - 1) Out.stored ++ [Out.complete P]) :=
+  run_frames_new seq P hs hP r0 (startsNew_of_seq_ne r0 seq _ h0)
 
 /-! ### sequences of messages -/
 theorem run_frames_append (seq : Nat) (P : Bytes) (hs : seq < 8) (hP : P.length ≤ 223)
